@@ -64,6 +64,9 @@ def argument_sources(tree: Tree, fn: FuncInfo, self_name: str = "self") -> list[
             callee = tree.callee(node, fn)
             if callee in DEEP_SOURCES:
                 found.append({"kind": "deep", "node": node, "callee": callee})
+            if callee in {"operator.attrgetter", "operator.itemgetter"} and (any(isinstance(a, ast.Starred) for a in node.args) or len(node.args) == 1):
+                # attrgetter(*names)(obj): a tuple for >= 2 names, the bare value for one name
+                found.append({"kind": "getter-arity", "node": node, "callee": callee})
         if isinstance(node, (ast.GeneratorExp, ast.ListComp, ast.SetComp)):
             for gen in node.generators:
                 if isinstance(gen.iter, ast.Call) and tree.callee(gen.iter, fn) in FIELDS_FUNCS | {
@@ -864,4 +867,77 @@ def sequential_subs_sites(tree: Tree, module_prefixes: tuple[str, ...]) -> list[
                 d.kind == "param" for d in rd.closure(rd.uses(arg)))
             dummy = "Dummy(" in txt
             out.append({"fn": fn, "node": node, "arbitrary": arbitrary and not dummy, "mapping": unparse(multi)[:60]})
+    return out
+
+
+# --------------------------------------------------------------------------- R-STRUCTSUBS
+
+
+def structural_subs_on_params(tree: Tree, module_prefixes: tuple[str, ...]) -> list[dict]:
+    """``expr.subs(p, v)`` / ``expr.subs({p: v})`` / ``expr.xreplace({p: v})`` where ``p`` is a
+    parameter of the function (or an argument unpacked from ``self.args``) and ``expr`` was built
+    from ``p`` with SymPy operations.  The substitution is structural: it only finds ``p`` where
+    it survives auto-simplification literally (``sqrt(q2*d**2)`` becomes ``d*sqrt(q2)`` for a
+    positive ``d``), so it is a correct way to evaluate 'expr at p = v' only when ``p`` is an
+    atomic symbol.  A site is *safe* when every caller inside the package hands a freshly created
+    Symbol/Dummy for that parameter."""
+    out = []
+    callers: dict[str, list[tuple[FuncInfo, ast.Call]]] = {}
+    for q, fn in tree.funcs.items():
+        for call, callee in tree.calls_in(fn):
+            if callee:
+                callers.setdefault(callee, []).append((fn, call))
+    for q, fn in sorted(tree.funcs.items()):
+        if not q.startswith(module_prefixes):
+            continue
+        rd = RD(fn.node)
+        params = set(fn.params)
+        for node in walk_function(fn.node):
+            if not (isinstance(node, ast.Call) and isinstance(node.func, ast.Attribute) and node.func.attr in {"subs", "xreplace"} and node.args):
+                continue
+            keys: list[ast.AST] = []
+            if node.func.attr == "subs" and len(node.args) == 2:
+                keys = [node.args[0]]
+            elif isinstance(node.args[0], ast.Dict):
+                keys = [k for k in node.args[0].keys if k is not None]
+            for k in keys:
+                if not isinstance(k, ast.Name):
+                    continue
+                defs = list(rd.reaching(k))
+                is_param = k.id in params and all(d.kind == "param" for d in defs)
+                from_args = any(d.value is not None and "self.args" in unparse(d.value) for d in defs)
+                if not (is_param or from_args):
+                    continue
+                # does the receiver depend on the key?
+                recv_names = {n.id for n in ast.walk(node.func.value) if isinstance(n, ast.Name)}
+                recv_defs = rd.closure(rd.uses(node.func.value))
+                depends = k.id in recv_names or any(
+                    d.value is not None and any(isinstance(n, ast.Name) and n.id == k.id for n in ast.walk(d.value)) for d in recv_defs)
+                if not depends:
+                    continue
+                unsafe_callers = []
+                if is_param:
+                    pos = fn.params.index(k.id)
+                    sites = callers.get(q, [])
+                    for cfn, call in sites:
+                        arg = None
+                        off = 1 if fn.cls is not None and fn.params and fn.params[0] in {"self", "cls"} else 0
+                        if pos - off < len(call.args) and pos - off >= 0:
+                            arg = call.args[pos - off]
+                        for kw in call.keywords:
+                            if kw.arg == k.id:
+                                arg = kw.value
+                        if arg is None:
+                            continue
+                        fresh = False
+                        if isinstance(arg, ast.Name):
+                            crd = RD(cfn.node)
+                            adefs = [d for d in crd.reaching(arg)]
+                            fresh = bool(adefs) and all(
+                                d.value is not None and isinstance(d.value, ast.Call) and unparse(d.value.func).split(".")[-1] in {"Symbol", "Dummy", "symbols"} for d in adefs)
+                        if not fresh:
+                            unsafe_callers.append(f"{cfn.qual}: `{unparse(arg)[:40]}`")
+                    if sites and not unsafe_callers:
+                        continue
+                out.append({"fn": fn, "node": node, "key": k.id, "callers": unsafe_callers or ["(an argument of the expression: arbitrary)"]})
     return out
